@@ -72,6 +72,10 @@ def run(prop, tier, seed, replay):
         case = G.rand_corrfunc_parts(rng, mask=ci % 8, auto=(ci // 8) % 2 == 0)
         reqs.append(G.enc_cf(str(ci), case))
         cases.append(case)
+    # stratum: no hidden state — measurements that come and go, containers changed between two samplings
+    import strata_state
+    strata_state.run_stratum(ck, rng, 12 if tier == "quick" else 60)
+
     gen = ck.driver("GenResample", reqs)
     spec = ck.driver("SpecDriver", reqs)
     if spec is None:
